@@ -1494,13 +1494,8 @@ impl TestTextSelection for TextSelectionSet {
                 .unwrap()
                 .test(operator, reftextsel, resource),
             TextSelectionOperator::SameRange { negate: false, .. } => {
-                self.leftmost()
-                    .unwrap()
-                    .test(operator, reftextsel, resource)
-                    && self
-                        .rightmost()
-                        .unwrap()
-                        .test(operator, reftextsel, resource)
+                //the leftmost begin and the rightmost end must coincide with the reference
+                self.begin() == Some(reftextsel.begin()) && self.end() == Some(reftextsel.end())
             }
 
             //negations
@@ -1668,13 +1663,8 @@ impl TestTextSelection for TextSelectionSet {
                 .unwrap()
                 .test_set(operator, refset, resource),
             TextSelectionOperator::SameRange { negate: false, .. } => {
-                self.leftmost()
-                    .unwrap()
-                    .test_set(operator, refset, resource)
-                    && self
-                        .rightmost()
-                        .unwrap()
-                        .test_set(operator, refset, resource)
+                //the leftmost begin and the rightmost end of both sets must coincide
+                !refset.is_empty() && self.begin() == refset.begin() && self.end() == refset.end()
             }
 
             //negations
